@@ -127,6 +127,9 @@ def run_tok_job(job, build, corpus, oracle, max_validate=400, step_budget=600000
         return (words, res, st.v, parser)
 
     def report(kind, words, predicted, expected, extra=None):
+        if extra is not None and not isinstance(extra, dict):
+            extra = repr(extra)[:600]
+        expected = [x if isinstance(x, (str, int, type(None))) else repr(x)[:600] for x in expected]
         m = ex.model()
         cz = tok.Concretizer(ex, m)
         argv = cz.argv(words)
